@@ -45,7 +45,12 @@ RULE = ("binary operations + - * / and or xor == != < <= > >= of a sparse tensor
         "as Python int and float, np.int64 for `*`), operands (6,7,3,-5) over divisors (4,-2,8) so that quotients are "
         "non-integral and stored entries sit over implicit zeros of the divisor, reference = NumPy on the expanded "
         "arrays of the same dtypes, `/` must return floating values; unary - + not ones elemfun, c*S, c/S, S*ktensor, extract, mask, from_aggregator with repeated "
-        "subscripts and cancelling values; shape mismatches. Non-trivial = accepted and at least one operand "
+        "subscripts and cancelling values; shape mismatches; a family `kruskal_rhs`: S*K, K*S, S/K, K/S for Kruskal tensors of rank "
+        "1..3 (entries of both signs and zeros; all-positive; all-negative; zero on a whole slice; two cancelling components) on "
+        "12 fixed shapes (singleton modes, repeated and pairwise distinct extents, orders 1..4) and random ones, operands empty / "
+        "single / some / full in sorted / reversed / shuffled stored order, `*` against the dense product, `/` against its "
+        "documented semantics S.vals / np.maximum(eps, K[subs]) on the pattern of S (outside the letter of C03; an empty operand "
+        "may raise or give an empty result), mismatching shapes, and S*T, S/T, T*S, T/S for Tucker tensors (all refused). Non-trivial = accepted and at least one operand "
         "with a stored entry; distinct = distinct case hash")
 ASSUMPTIONS = [
     "IEEE double arithmetic on the generated small integers is exact; quotients are compared with the correctly "
@@ -750,6 +755,193 @@ class Mismatch(Family):
                 out.append(Verdict("ok", "", None, None, None, tags, False))
         return out
 
+# ----------------------------------------------------------------------------
+# Kruskal / Tucker right-hand sides
+# ----------------------------------------------------------------------------
+FLOAT_EPS = float(np.finfo(float).eps)
+
+
+def k_expand(K, shape=None):
+    """The array a Kruskal tensor denotes, by NumPy alone (sum over components of the scaled outer products)."""
+    ws, fs = K["weights"], K["factors"]
+    shp = tuple(len(f) for f in fs)
+    out = np.zeros(shp)
+    for r, w in enumerate(ws):
+        comp = np.array(float(w))
+        for f in fs:
+            comp = np.multiply.outer(comp, np.array([row[r] for row in f], dtype=float))
+        out = out + comp
+    return out
+
+
+def rand_ktensor(rng, shape, style):
+    """style: any (entries of both signs and zeros) | positive (all entries >= 1: the floor of `/` never acts and no
+    cell is zero) | zero_slice (one row of one factor is zero: the tensor vanishes on a whole slice, stored and
+    unstored cells alike) | cancel (two components that cancel everywhere) | negative (all entries <= -1)."""
+    R = rng.randint(1, 3)
+    if style == "positive":
+        return {"weights": [rng.choice([1, 2]) for _ in range(R)],
+                "factors": [[[rng.choice([1, 2]) for _ in range(R)] for _ in range(m)] for m in shape]}
+    if style == "negative":
+        return {"weights": [rng.choice([-1, -2]) for _ in range(R)],
+                "factors": [[[rng.choice([1, 2]) for _ in range(R)] for _ in range(m)] for m in shape]}
+    if style == "cancel":
+        col = [[rng.choice([-1, 1, 2]) for _ in range(m)] for m in shape]
+        w = rng.choice([1, 2])
+        return {"weights": [w, -w], "factors": [[[c, c] for c in cs] for cs in col]}
+    K = {"weights": [rng.choice([-2, -1, 1, 2]) for _ in range(R)],
+         "factors": [[[rng.choice([-1, 0, 1, 2]) for _ in range(R)] for _ in range(m)] for m in shape]}
+    if style == "zero_slice":
+        n = rng.randrange(len(shape))
+        K["factors"][n][rng.randrange(shape[n])] = [0] * R
+    return K
+
+
+class KruskalRhs(Family):
+    """S * K, S / K, K * S, K / S for a Kruskal tensor K, and the four combinations with a Tucker tensor, against the
+    model and against NumPy on the expanded arrays: the dense product for `*`; for `/` the DOCUMENTED semantics (the
+    stored pattern of S, each stored value divided by np.maximum(eps, K[j]), nothing else stored; an empty operand
+    raises today, an empty result is accepted as well).  A Kruskal divisor is outside the letter of C03 (which names
+    scalar, dense and sparse right-hand sides); where the documented semantics part from dense `/` (entries of K
+    below eps at stored cells, K = 0 at unstored cells) is tagged, not judged."""
+    name = "kruskal_rhs"
+    theorems = ("C03_mul_kruskal", "C03_rmul_kruskal", "C03_div_kruskal", "C03_div_kruskal_xrat", "C03_div_kruskal_dense",
+                "C03_div_kruskal_rejects_shape", "C03_div_kruskal_rejects_empty", "C03_mul_kruskal_rejects_shape",
+                "C03_rdiv_kruskal_tucker_reject")
+    SHAPES = [[1], [3], [1, 3], [2, 1], [2, 2], [2, 3], [3, 3], [2, 1, 2], [1, 1, 1], [3, 2, 4], [2, 2, 2], [2, 3, 1, 2]]
+
+    def gen(self, rng, tier):
+        out = []
+        n = 10 if tier == "quick" else 60
+        for s in self.SHAPES:
+            for _ in range(n if gen.numel(s) > 1 else 3):
+                for style in ("any", "positive", "zero_slice", "cancel", "negative"):
+                    a = rand_entries(rng, s, rng.choice(["empty", "one", "some", "some", "all"]))
+                    K = rand_ktensor(rng, s, style)
+                    for op in ("mul", "div", "kmul"):
+                        out.append({"shape": s, "a": a, "K": K, "op": op})
+                    if rng.random() < 0.2:
+                        out.append({"shape": s, "a": a, "K": K, "op": "rdivk"})
+        for _ in range(30 if tier == "quick" else 300):   # other shapes, random
+            s = gen.shape(rng, 1, 4, 3)
+            a = rand_entries(rng, s)
+            K = rand_ktensor(rng, s, rng.choice(["any", "any", "positive", "zero_slice"]))
+            out.append({"shape": s, "a": a, "K": K, "op": rng.choice(["mul", "div", "kmul"])})
+        for _ in range(12 if tier == "quick" else 120):   # shape mismatch
+            s = gen.shape(rng, 1, 3, 3)
+            t = list(s)
+            if rng.random() < 0.5:
+                t[rng.randrange(len(t))] += 1
+            else:
+                t = t + [1]
+            a = rand_entries(rng, s, rng.choice(["empty", "some", "all"]))
+            out.append({"shape": s, "a": a, "K": rand_ktensor(rng, t, "positive"), "op": rng.choice(["mul", "div", "kmul"]), "mismatch": True})
+        for _ in range(12 if tier == "quick" else 80):    # Tucker operands: no element-wise operation exists
+            s = gen.shape(rng, 1, 3, 3)
+            cs = [rng.randint(1, 2) for _ in s]
+            T = {"core": {"shape": cs, "data": [rng.choice([-1, 1, 2]) for _ in range(gen.numel(cs))]},
+                 "factors": [[[rng.choice([-1, 0, 1, 2]) for _ in range(c)] for _ in range(m)] for m, c in zip(s, cs)]}
+            out.append({"shape": s, "a": rand_entries(rng, s), "T": T, "op": rng.choice(["mult", "divt", "tmul", "rdivt"])})
+        return out
+
+    def evaluate(self, cases):
+        impls, reqs, specs = [], [], []
+        for c in cases:
+            s, a, op = c["shape"], c["a"], c["op"]
+            A = gen.mk_sptensor(ttb, s, a["subs"], a["vals"])
+            Ad = expand_entries(s, a["subs"], a["vals"])
+            Aj = {"shape": s, **a}
+            if "T" in c:
+                T = ttb.ttensor(ttb.tensor(np.array(c["T"]["core"]["data"], dtype=float).reshape(tuple(c["T"]["core"]["shape"]), order="F")),
+                                [np.array(f, dtype=float).reshape(len(f), -1) for f in c["T"]["factors"]])
+                f = {"mult": lambda A=A, T=T: A * T, "divt": lambda A=A, T=T: A / T,
+                     "tmul": lambda A=A, T=T: T * A, "rdivt": lambda A=A, T=T: T / A}[op]
+                impls.append(call(f))
+                reqs.append({"op": "sp_tucker", "name": op, "A": Aj, "T": c["T"]})
+                specs.append(None)
+                continue
+            K = gen.mk_ktensor(ttb, c["K"]["weights"], c["K"]["factors"])
+            f = {"mul": lambda A=A, K=K: A * K, "div": lambda A=A, K=K: A / K,
+                 "kmul": lambda A=A, K=K: K * A, "rdivk": lambda A=A, K=K: K / A}[op]
+            impls.append(call(f))
+            if op == "mul":
+                reqs.append({"op": "sp_mulk", "A": Aj, "K": c["K"]})
+            elif op == "div":
+                reqs.append({"op": "sp_divk", "A": Aj, "K": c["K"]})
+            else:
+                reqs.append({"op": "sp_krefl", "name": op, "A": Aj, "K": c["K"]})
+            if c.get("mismatch") or op == "rdivk":
+                specs.append(None)
+            else:
+                Kd = k_expand(c["K"])
+                with np.errstate(all="ignore"):
+                    specs.append(np.asarray(Ad / Kd if op == "div" else Ad * Kd, dtype=float))
+        models = drive(reqs)
+        out = []
+        for c, impl, m, want in zip(cases, impls, models, specs):
+            op = c["op"]
+            nn = len(c["a"]["subs"])
+            tags = [op, f"nnz{min(nn, 3)}", f"order{len(c['shape'])}"]
+            if 1 in c["shape"]:
+                tags.append("singleton-mode")
+            if "K" in c:
+                tags.append(f"rank{len(c['K']['weights'])}")
+            if want is None:   # nothing to compute: the request must be refused
+                tags.append("mismatch" if c.get("mismatch") else "no-such-operation")
+                if "ok" in impl:
+                    out.append(Verdict("violation", f"{op}: accepted a request that has no element-wise meaning  [{c}]", canon(impl["ok"]), m, None, tags))
+                elif "ok" in m:
+                    out.append(Verdict("corr", f"{op}: the model accepts what the implementation refuses", impl, m, None, tags))
+                else:
+                    out.append(Verdict("ok", "", None, None, None, tags, False))
+                continue
+            Kd = k_expand(c["K"])
+            stored = {tuple(r) for r in c["a"]["subs"]}
+            kz_st = any(Kd[j] == 0 for j in stored)
+            kz_un = bool(((Kd == 0) & (expand_entries(c["shape"], c["a"]["subs"], [1] * nn) == 0)).any())
+            kneg = any(Kd[j] < 0 for j in stored)
+            tags += [t for t, on in (("K=0@stored", kz_st), ("K=0@unstored", kz_un), ("K<0@stored", kneg)) if on]
+            if op != "div":
+                st, what, ic, mm, sp = judge(c["shape"], impl, m, want, f"{op}/kruskal")
+                out.append(Verdict("ok", "", None, None, None, tags, nn > 0) if st == "ok" else Verdict(st, what + f"  [{c}]", ic, mm, sp, tags))
+                continue
+            out.append(self.judge_div(c, impl, m, want, Kd, stored, tags))
+        return out
+
+    @staticmethod
+    def judge_div(c, impl, m, dense, Kd, stored, tags):
+        """Oracle = the documented semantics of `S / K`: the stored pattern of S, each stored value divided by
+        np.maximum(eps, K[j]) (NumPy on the expanded arrays), every other cell 0.  `dense` (the plain dense quotient)
+        only feeds the tags that say where the documented semantics and dense `/` part."""
+        shape, label = c["shape"], "div/kruskal"
+        Ad = expand_entries(shape, c["a"]["subs"], c["a"]["vals"])
+        with np.errstate(all="ignore"):
+            want = np.where(Ad != 0, Ad / np.maximum(FLOAT_EPS, Kd), 0.0)
+        if not stored:
+            # today: IndexError (no nnz == 0 shortcut); an empty result of the same shape is equally acceptable
+            if "ok" not in impl:
+                if "ok" in m:
+                    return Verdict("corr", f"{label}: the model answers for an empty operand, the implementation raises", impl, m, jval(want), tags)
+                return Verdict("ok", "", None, None, None, tags + ["empty:raises"], False)
+            r = impl["ok"]
+            if not isinstance(r, ttb.sptensor) or tuple(r.shape) != tuple(shape) or r.nnz != 0:
+                return Verdict("violation", f"{label}: an operand without stored entries gave something else than an empty sparse tensor "
+                               f"of its shape  [{c}]", canon(r), m, jval(want), tags)
+            return Verdict("ok", "", None, None, None, tags + ["empty:empty-result"], False)
+        st, what, ic, mm, sp = judge(shape, impl, m, want, label)
+        if st != "ok":
+            return Verdict(st, what.replace("the dense result", "S.vals / maximum(eps, K[subs]) on the pattern of S") + f"  [{c}]", ic, mm, sp, tags)
+        floor = any(Kd[j] < FLOAT_EPS for j in stored)
+        nanc = bool(np.isnan(dense).any())
+        return Verdict("ok", "", None, None, None,
+                       tags + (["floor-active"] if floor else []) + (["dense-0/0-cell"] if nanc else []) +
+                       (["equals-dense-quotient"] if not floor and not nanc else []), True)
+
+    def shrink(self, case):
+        a = case["a"]
+        for k in range(len(a["subs"])):
+            yield {**case, "a": {"subs": a["subs"][:k] + a["subs"][k + 1:], "vals": a["vals"][:k] + a["vals"][k + 1:]}}
+
 
 def families():
-    return [Dtypes(), Enumerated(), Sampled(), Unary(), Lookups(), Mismatch()]
+    return [Dtypes(), Enumerated(), Sampled(), Unary(), KruskalRhs(), Lookups(), Mismatch()]
